@@ -78,10 +78,22 @@ fn unescape_one(b: &[u8], syn: Syntax) -> Option<u32> {
             if v < 0x10000 || v > 0x10FFFF { return None; }
             v
         } else { return None; };
-    // RFC 8259: %x20-21 / %x23-5B / %x5D-10FFFF unescaped.  TOML v1.0: additionally U+007F must
-    // be escaped (tab may be raw).  Python: a raw newline/CR would end the literal - covered by < 0x20.
-    if cp < 0x20 || cp == 0x22 || cp == 0x5C { return None; }
-    if syn == Syntax::Toml && cp == 0x7F { return None; }
+    // Which characters may appear RAW between the quotes:
+    //   JSON  (RFC 8259): %x20-21 / %x23-5B / %x5D-10FFFF.
+    //   TOML  (v1.0 basic string): C0 controls except TAB, and U+007F, must be escaped (raw TAB is legal).
+    //   Python ("..." literal): everything except quote, backslash and {U+0000, U+000A, U+000D}.
+    //     MEASURED with Python's own parser (ast.literal_eval on '"' + c + '"' for every C0 control,
+    //     DEL, NEL, LS, PS): only NUL, LF, CR fail to decode back to themselves.  An earlier version
+    //     of this spec demanded `< 0x20` for Python too, which is MORE than the property states
+    //     ("the target language's own parser decodes to the same value") and raised a false alarm
+    //     on a seeded change that stopped escaping U+001F (DESIGN.md section 12).
+    if cp == 0x22 || cp == 0x5C { return None; }
+    match syn {
+        Syntax::Json => if cp < 0x20 { return None; },
+        // MEASURED with tomllib: raw TAB is accepted and round-trips; every other C0 control and U+007F is rejected
+        Syntax::Toml => if (cp < 0x20 && cp != 0x09) || cp == 0x7F { return None; },
+        Syntax::Python => if cp == 0x00 || cp == 0x0A || cp == 0x0D { return None; },
+    }
     Some(cp)
 }
 
@@ -95,10 +107,10 @@ mod vharness {
         assert!(n >= 3, "C05,C20:escape:quoted-nonempty");
         assert!(b[0] == b'"' && b[n - 1] == b'"', "C05,C20:escape:delimited-by-quotes");
         let body = &b[1..n - 1];
-        // well-formed single-char body per the grammar (this implies: no raw byte < 0x20, no raw
-        // quote or backslash inside the string - see unescape_one)
+        // well-formed single-char body per the TARGET grammar: which raw characters are allowed
+        // differs per syntax (see unescape_one); quote and backslash are never allowed raw
         let dec = unescape_one(body, syn);
-        assert!(dec.is_some(), "C05,C20:escape:body-is-wellformed-no-raw-control-quote-backslash");
+        assert!(dec.is_some(), "C05,C20:escape:body-is-a-wellformed-single-char-literal-of-the-target-grammar");
         assert!(dec == Some(c as u32), "C05,C20:escape:decodes-to-input-char");
     }
 
